@@ -467,4 +467,54 @@ def latest (names : List Str) : Except Err (Option Nat) :=
     | none => .ok none
     | some (v, _) => .ok (some (names.findIdx (· == v)))
 
+/-! ## through the stacks -/
+
+/-- `Eups._findLatestProduct(name, eupsPathDirs, flavor)` through the cache: in every stack the last of
+the sorted versions; a later stack replaces the candidate only when its latest is strictly later.
+Stacks are the lists of declared versions, in path order.  Returns (stack index, version). -/
+def latestAcrossGo (i : Nat) (out : Option (Nat × Str × Lexed)) :
+    List (List Str) → Except Err (Option (Nat × Str × Lexed))
+  | [] => .ok out
+  | st :: rest =>
+    match lexPairs st with
+    | .error e => .error e
+    | .ok ps =>
+      match lastMax none ps with
+      | none => latestAcrossGo (i + 1) out rest
+      | some (v, l) =>
+        match out with
+        | none => latestAcrossGo (i + 1) (some (i, v, l)) rest
+        | some (_, _, lw) =>
+          if cmpSort l lw > 0 then latestAcrossGo (i + 1) (some (i, v, l)) rest
+          else latestAcrossGo (i + 1) out rest
+
+def latestAcross (stacks : List (List Str)) : Except Err (Option (Nat × Str)) :=
+  match latestAcrossGo 0 none stacks with
+  | .error e => .error e
+  | .ok none => .ok none
+  | .ok (some (i, v, _)) => .ok (some (i, v))
+
+/-- the versions of one stack that match, not seen in an earlier stack -/
+def matchesIn (expr : Str) (i : Nat) : List Str → List (Nat × Str) → Except Err (List (Nat × Str))
+  | [], acc => .ok acc
+  | v :: vs, acc =>
+    match versionMatch v expr with
+    | .error e => .error e
+    | .ok false => matchesIn expr i vs acc
+    | .ok true =>
+      if acc.any (fun p => p.2 == v) then matchesIn expr i vs acc
+      else matchesIn expr i vs (acc ++ [(i, v)])
+
+/-- `Eups._findProductsByExpr(name, expr, eupsPathDirs, flavor, noCache)`: (stack index, version) of
+every version that matches, a version string counted once (first stack). -/
+def matchesAcrossGo (expr : Str) (i : Nat) : List (List Str) → List (Nat × Str) → Except Err (List (Nat × Str))
+  | [], acc => .ok acc
+  | st :: rest, acc =>
+    match matchesIn expr i st acc with
+    | .error e => .error e
+    | .ok acc' => matchesAcrossGo expr (i + 1) rest acc'
+
+def matchesAcross (expr : Str) (stacks : List (List Str)) : Except Err (List (Nat × Str)) :=
+  matchesAcrossGo expr 0 stacks []
+
 end EupsModel.VersionCmp
